@@ -10,6 +10,11 @@ use crate::{all_variants, Ctx};
 use tlsh::verif::GeneratorState;
 use tlsh::{GeneratorError, GeneratorType};
 
+/// All 32 option settings natively; a covering handful under an interpreter (reduced mode).
+pub fn opt_selected(o: u8) -> bool {
+    !gen::small() || matches!(o, 0 | 3 | 28 | 30)
+}
+
 pub fn outcome_name(r: &Result<Parts, GeneratorError>) -> &'static str {
     match r {
         Ok(_) => "Ok",
@@ -152,6 +157,10 @@ fn api_one<V: Variant>(
         let plen = g.processed_len();
         let mut outs = Vec::with_capacity(32);
         for o in 0..32u8 {
+            if !opt_selected(o) {
+                outs.push(Err(GeneratorError::TooSmallInput));
+                continue;
+            }
             outs.push(
                 g.finalize_with_options(&options(Opts(o)))
                     .map(|h| V::parts(&h)),
@@ -188,6 +197,9 @@ fn api_one<V: Variant>(
         );
     }
     for o in 0..32u8 {
+        if !opt_selected(o) {
+            continue;
+        }
         rep.eval(1);
         let exp = match st.finalize(V::NB, V::CK, Opts(o)) {
             Some(e) => e,
@@ -290,9 +302,11 @@ pub fn run_api(ctx: &Ctx, rep: &mut Report) {
         }
         prev = Some(data);
     }
-    for v in ["Short", "Normal", "Long"] {
-        for k in ["Ok", "TooSmallInput", "BucketsAreThreeQuarterEmpty", "BucketsAreHalfEmpty"] {
-            rep.floor(&format!("{}:{}", v, k), 1);
+    if ctx.scale >= 0.2 {
+        for v in ["Short", "Normal", "Long"] {
+            for k in ["Ok", "TooSmallInput", "BucketsAreThreeQuarterEmpty", "BucketsAreHalfEmpty"] {
+                rep.floor(&format!("{}:{}", v, k), 1);
+            }
         }
     }
 }
@@ -306,6 +320,10 @@ fn state_one<V: Variant>(st: &GeneratorState, rep: &mut Report) {
         let g = V::gen_from_state(st);
         let mut outs = Vec::with_capacity(32);
         for o in 0..32u8 {
+            if !opt_selected(o) {
+                outs.push(Err(GeneratorError::TooSmallInput));
+                continue;
+            }
             outs.push(
                 g.finalize_with_options(&options(Opts(o)))
                     .map(|h| V::parts(&h)),
@@ -359,6 +377,9 @@ fn state_one<V: Variant>(st: &GeneratorState, rep: &mut Report) {
     let mut q_int = None;
     let mut q_f32 = None;
     for o in 0..32u8 {
+        if !opt_selected(o) {
+            continue;
+        }
         rep.eval(1);
         let exp = match rs.finalize(V::NB, V::CK, Opts(o)) {
             Some(e) => e,
@@ -438,6 +459,9 @@ pub fn run_state(ctx: &Ctx, rep: &mut Report) {
                     .with("first_buckets", st.buckets[..8].iter().map(|&x| Json::i(x)).collect::<Vec<_>>()),
             );
         }
+    }
+    if ctx.scale < 0.2 {
+        return;
     }
     rep.floor("state:intq!=f32q", 10);
     rep.floor("state:q3>=2^24", 10);
@@ -662,8 +686,10 @@ pub fn run_agg(ctx: &Ctx, rep: &mut Report) {
             );
         }
     }
-    rep.floor("agg:straddles_2^31", 10);
-    rep.set_floor("agg-backends", ctx.param_u64("expect_agg_backends", 2));
+    if ctx.scale >= 0.2 {
+        rep.floor("agg:straddles_2^31", 10);
+    }
+    rep.set_floor_always("agg-backends", ctx.param_u64("expect_agg_backends", 2));
 }
 
 pub fn replay(case: &Json, rep: &mut Report) -> bool {
